@@ -62,11 +62,12 @@ Theorem save_obj_packets f c t pad cb f' pages :
        ogg_f_stream_packets (cut_s k) pages =
          ogg_f_unpage (filter (is_serial (cut_s k)) (cut_before k)) ++ [cut_p0 k] ++ post /\
        ogg_f_stream_packets (cut_s k) (cut_result k news) =
-         ogg_f_unpage (filter (is_serial (cut_s k)) (cut_before k)) ++ [cut_d k] ++ post).
+         ogg_f_unpage (filter (is_serial (cut_s k)) (cut_before k)) ++ [cut_d k] ++ post) /\
+    ogg_f_inject c t pad cb f = Ok (olds, news).
 Proof.
   intros Hp Hs H.
-  destruct (save_obj_step f c t pad cb f' pages Hp Hs H) as (olds & news & k & K & P' & S' & O & V1 & V2 & NK & Wres).
-  exists olds, news, k. split; [exact K|]. split; [exact P'|]. split; [exact O|]. intros Hc.
+  destruct (save_obj_step f c t pad cb f' pages Hp Hs H) as (olds & news & k & K & P' & S' & O & V1 & V2 & NK & Wres & Inj).
+  exists olds, news, k. split; [exact K|]. split; [exact P'|]. split; [exact O|]. split; [|exact Inj]. intros Hc.
   apply parse_iff in Hp as (Ef & W).
   destruct (cut_news_ok c t pad cb pages olds news k W K) as (_ & Wo & WG & Wb).
   pose proof K as (Ep & Eo & S1 & S2 & S3 & S4 & T & N & F).
